@@ -257,6 +257,11 @@ def gen_C03(rng, tier):
             L.append("shape %s elements" % d)
     for p in [17, 41, 43, 71, 73, 97, 257, 65537, 65521, 2147483647, 4294967291]:
         L.append("shape P:%d gen" % p)
+    # the objects a field hands out are values: a generator / identity modified in place must not change
+    # what the next call returns
+    for (p, n) in small[:60] + [(5, 1), (7, 1), (11, 1), (13, 1), (31, 1), (101, 1)]:
+        for d in {field_desc(p, n)}:
+            L.append("hist %s %s 1 | e0=gen@0 | mult e0 e0 | e1=gen@0 | setu e1 1 | e2=gen@0 | e3=one@0 | add e3 e3 | e4=one@0 | e5=zero@0 | add e5 e4 | e6=zero@0 | eq e0 e2" % (d, HDR_DEFAULT))
     return L
 
 
@@ -277,6 +282,25 @@ def gen_C04(rng, tier):
                 absent.append((pp, nn))
     for (p, n) in absent:
         L.append("conway %d %d" % (p, n))
+    hi = [k for k in keys if k[1] >= 200]
+    lo = [k for k in keys if k[1] < 60]
+    for _ in range(60 if big else 25):
+        seq = []
+        for _ in range(12):
+            r = rng.random()
+            if r < 0.35 and hi:
+                pp, nn = rng.choice(hi)
+                seq.append((pp, nn))
+                # keys that collide with it under common packings of (p, n) into one word
+                for (p2, n2) in [(pp + 1, nn - 256), (pp + 1, nn % 256), (pp, nn % 256), (3, nn - 256), (3, nn % 256), (5, nn % 128)]:
+                    if n2 >= 1 and rng.random() < 0.5:
+                        seq.append((p2, n2))
+            elif r < 0.8:
+                seq.append(rng.choice(lo))
+            else:
+                seq.append(rng.choice(absent))
+        rng.shuffle(seq) if rng.random() < 0.3 else None
+        L.append("conwayseq " + " ".join("%d %d" % k for k in seq[:30]))
     for (p, n) in [(0, 0), (1, 1), (2, 0), (4, 2), (6, 1), (2, 410), (109987, 1), (109987, 2), (109988, 1),
                    (2 ** 64 - 1, 1), (3, 2 ** 64 - 1)]:
         L.append("conway %d %d" % (p, n))
@@ -323,6 +347,15 @@ def gen_C09(rng, tier):
             a = (rng.randrange(2 ** 31), rng.randrange(2 ** 31))
             b = rng.choice([(rng.randrange(2 ** 31), rng.randrange(2 ** 31)), (a[1], a[0]), (a[0] + 1, max(a[1] - 1, 0)), a])
             L.append("order %s %d %d %d %d" % (o, a[0], a[1], b[0], b[1]))
+    huge = [0, 1, 2 ** 31, 2 ** 32, 2 ** 62, 2 ** 63 - 1, 2 ** 63, 2 ** 63 + 1, 2 ** 64 - 1]
+    for o in ["lex.1", "lex.0", "deglex.1", "degrevlex.0", "wdeglex.1.0.1", "wdegrevlex.1.1.1", "wdeglex.1048576.1.1", "wdegrevlex.3.1048576.0"]:
+        t = o.split(".")
+        wx, wy = (int(t[1]), int(t[2])) if t[0].startswith("wdeg") else (1, 1)
+        for a0 in huge:
+            for b0 in huge:
+                for (a, b) in [((a0, 0), (b0, 0)), ((0, a0), (b0, 0)), ((a0, 1), (b0, 2)), ((a0, 0), (0, 0)), ((0, 0), (0, b0))]:
+                    if t[0] == "lex" or (a[0] * wx + a[1] * wy < 2 ** 64 and b[0] * wx + b[1] * wy < 2 ** 64):
+                        L.append("order %s %d %d %d %d" % (o, a[0], a[1], b[0], b[1]))
     # leading data / sorted degrees through polynomials
     for _ in range(600 if big else 150):
         desc = pick_field(rng, small=0.9, mid=0.1)
@@ -642,8 +675,22 @@ def gen_C07(rng, tier):
     for _ in range(n):
         desc = pick_field(rng, small=0.75, mid=0.25)
         uspec, d = umod_spec(rng, desc)
+        second = None
+        if rng.random() < 0.35:
+            u2, d2 = umod_spec(rng, desc)
+            uspec = uspec + ":" + u2.split(":")[2]
+            second = d2
         h = H(rng, desc, uspec=uspec)
         ps = []
+        if second is not None:
+            # embedding with reduction between two quotient rings of the same ring
+            src1 = h.upoly(deg=rng.choice([max(d - 1, 0), d, 2 * d]), ring=1)
+            cp = h.newu(); h.ops.append("%s=copy %s" % (cp, src1))
+            h.ops.append("embed %s @3 1" % cp)
+            h.ops.append("obs %s" % cp)
+            back = h.newu(); h.ops.append("%s=copy %s" % (back, cp)); h.ops.append("embed %s @1 1" % back)
+            cp2 = h.newu(); h.ops.append("%s=copy %s" % (cp2, src1)); h.ops.append("embed %s @3 0" % cp2); h.ops.append("embed %s @3 1" % cp2)
+            h.ops.append("%s=plus %s %s" % (h.newu(), cp, cp2))
         for _ in range(3):
             ps.append(h.upoly(deg=rng.choice([0, d - 1, d, d + 1, 2 * d, 3 * d]), ring=1))
         r = h.newu(); h.ops.append("%s=nats@1 %s" % (r, ",".join(str(rng.randrange(2 ** 64)) for _ in range(rng.randrange(1, 3 * d + 2))))); ps.append(r)
@@ -885,6 +932,15 @@ def gen_C13(rng, tier):
             gens += field_eqs(desc)
         h = H(rng, desc, bspec=bspec(rng, gens=";".join(gens)))
         qs = [h.bpoly(nterms=rng.choice([1, 2, 4]), box=5, ring=1) for _ in range(3)]
+        if rng.random() < 0.5:
+            b0 = h.bpoly(nterms=rng.choice([2, 4]), box=6, ring=0)
+            e1 = h.newb(); h.ops.append("%s=embed@1 %s:1" % (e1, b0)); qs.append(e1)
+            e0 = h.newb(); h.ops.append("%s=embed@1 %s:0" % (e0, b0))
+            e2 = h.newb(); h.ops.append("%s=embed@1 %s:1" % (e2, e0)); qs.append(e2)
+            h.ops.append("eq %s %s" % (e1, e2))
+            one = h.elem("1")
+            t = h.newb(); h.ops.append("%s=copy %s" % (t, qs[0])); h.ops.append("inc %s %d:%d %s" % (t, rng.randrange(3, 7), rng.randrange(3, 7), one))
+            e3 = h.newb(); h.ops.append("%s=embed@1 %s:1" % (e3, t)); qs.append(e3)
         r = h.newb(); h.ops.append("%s=nats@1 %s" % (r, "/".join("%d:%d:%d" % (i, rng.randrange(5), rng.randrange(100)) for i in range(3)))); qs.append(r)
         for _ in range(rng.randrange(3, 14)):
             a, b = rng.choice(qs), rng.choice(qs)
@@ -931,6 +987,8 @@ def gen_C14(rng, tier):
         if rng.random() < 0.2:
             h.ops.append("%s=interp@0 %s %s" % (h.newu(), ",".join(pts + [pts[0]]), ",".join(vals + [vals[0]])))
             h.ops.append("%s=interp@0 %s %s" % (h.newu(), ",".join(pts), ",".join(vals[:-1]) or "-"))
+            h.ops.append("%s=interp@0 %s %s" % (h.newu(), ",".join(pts), ",".join(vals + [vals[0]])))
+            h.ops.append("%s=interp@0 %s %s" % (h.newu(), ",".join(pts[:-1]) or "-", ",".join(vals)))
         # bivariate
         kb = rng.randrange(1, 6)
         pairs = set()
@@ -958,6 +1016,8 @@ def gen_C14(rng, tier):
         h.ops.append("obs %s" % g)
         if rng.random() < 0.2:
             h.ops.append("%s=interp@0 %s %s %s" % (h.newb(), ",".join(xs + [xs[0]]), ",".join(ys + [ys[0]]), ",".join(vs + [vs[0]])))
+            h.ops.append("%s=interp@0 %s %s %s" % (h.newb(), ",".join(xs), ",".join(ys), ",".join(vs + [vs[0]])))
+            h.ops.append("%s=interp@0 %s %s %s" % (h.newb(), ",".join(xs), ",".join(ys), ",".join(vs[:-1]) or "-"))
         L.append(h.line())
     # whole field
     for desc in fields(SMALL_Q[:10]):
@@ -1034,6 +1094,12 @@ def gen_C15(rng, tier):
         for _ in range(2):
             q = h.bpoly(nterms=rng.choice([0, 1, 2, 3, 5]), box=rng.choice([2, 4, 12]))
             h.ops.append("obs %s" % q)
+        if rng.random() < 0.15:
+            q = h.newb()
+            big_e = [2 ** 63, 2 ** 64 - 1, 2 ** 63 + rng.randrange(1000), 2 ** 32, rng.randrange(2 ** 64)]
+            h.ops.append("%s=nats@0 %d:%d:1/%d:%d:1/0:0:1" % (q, rng.choice(big_e), rng.randrange(3), rng.randrange(3), rng.choice(big_e)))
+            h.ops.append("obs %s" % q)
+            p_ = h.newu(); h.ops.append("%s=nats@0 1,0,0,1" % p_); h.ops.append("obs %s" % p_)
         L.append(h.line())
     return L
 
